@@ -1072,9 +1072,9 @@ Definition good_pos (q : string) (p : nat) : Prop :=
 Definition runs_tree (c : Checker.stmt) (X : expr) : Prop := incl (positions X) (cstmt_positions c).
 
 Lemma accepted_good q s c a :
-  parse_check fo q = PCOk s c a -> forall p, In p (cstmt_positions c) -> good_pos q p.
+  parse_check fo re_match fmt_v q = PCOk s c a -> forall p, In p (cstmt_positions c) -> good_pos q p.
 Proof.
-  intros E p Hp. destruct (parse_check_ok_positions_thm fo q s c a E) as (_ & _ & Hc & Hq).
+  intros E p Hp. destruct (parse_check_ok_positions_thm fo re_match fmt_v q s c a E) as (_ & _ & Hc & Hq).
   rewrite Forall_forall in Hc, Hq. split.
   - destruct (Hc p Hp) as [->|Hin]; [left; reflexivity | right; unfold zstarts; now apply in_map].
   - apply Hq. apply in_or_app. now right.
@@ -1093,7 +1093,7 @@ Proof. intros H p Hp. apply H. eapply exec_tree_positions_lemma; exact Hp. Qed.
 
 (* any tree that carries only positions of the checked statement, all four entry points *)
 Theorem exec_err_pos_general_lemma q s c a X :
-  parse_check fo q = PCOk s c a -> runs_tree c X ->
+  parse_check fo re_match fmt_v q = PCOk s c a -> runs_tree c X ->
   (forall k v p, eval fo re_match k v X = Err (EExec p) -> good_pos q p) /\
   (forall k v p, filter_row fo re_match k v X = Err (EExec p) -> good_pos q p) /\
   (forall fb ch p, eval_batch fo re_match fb X ch = Err (EExec p) -> good_pos q p) /\
@@ -1109,7 +1109,7 @@ Qed.
 
 (* the statement of the task: T a tree of the checked statement, its folded form, every pair *)
 Theorem exec_err_pos_row_lemma q s c a T k v p :
-  parse_check fo q = PCOk s c a -> In T (cstmt_exprs c) ->
+  parse_check fo re_match fmt_v q = PCOk s c a -> In T (cstmt_exprs c) ->
   eval fo re_match k v (fold T) = Err (EExec p) \/ filter_row fo re_match k v (fold T) = Err (EExec p) ->
   good_pos q p.
 Proof.
@@ -1119,7 +1119,7 @@ Proof.
 Qed.
 
 Theorem exec_err_pos_batch_lemma q s c a T fb ch p :
-  parse_check fo q = PCOk s c a -> In T (cstmt_exprs c) ->
+  parse_check fo re_match fmt_v q = PCOk s c a -> In T (cstmt_exprs c) ->
   eval_batch fo re_match fb (fold T) ch = Err (EExec p) \/
   filter_batch fo re_match fb (fold T) ch = Err (EExec p) ->
   good_pos q p.
@@ -1133,7 +1133,7 @@ Qed.
    folder left them, Model/FoldStmt.v) and for the checked tree itself (PUT / REMOVE trees are
    not folded) *)
 Theorem exec_err_pos_exec_tree_lemma q s c a T p :
-  parse_check fo q = PCOk s c a -> In T (cstmt_exprs c) ->
+  parse_check fo re_match fmt_v q = PCOk s c a -> In T (cstmt_exprs c) ->
   (exists k v, eval fo re_match k v (exec_tree T) = Err (EExec p) \/
                filter_row fo re_match k v (exec_tree T) = Err (EExec p)) \/
   (exists fb ch, eval_batch fo re_match fb (exec_tree T) ch = Err (EExec p) \/
@@ -1146,7 +1146,7 @@ Proof.
 Qed.
 
 Theorem exec_err_pos_unfolded_lemma q s c a T p :
-  parse_check fo q = PCOk s c a -> In T (cstmt_exprs c) ->
+  parse_check fo re_match fmt_v q = PCOk s c a -> In T (cstmt_exprs c) ->
   (exists k v, eval fo re_match k v T = Err (EExec p)) \/
   (exists fb ch, eval_batch fo re_match fb T ch = Err (EExec p)) ->
   good_pos q p.
@@ -1174,7 +1174,7 @@ Proof.
 Qed.
 
 Theorem select_err_pos_lemma q s fields w order a all_fields slots B p :
-  parse_check fo q = PCOk s (Checker.SSelect fields w order) a ->
+  parse_check fo re_match fmt_v q = PCOk s (Checker.SSelect fields w order) a ->
   select_row fo re_match (exec_tree w) (if all_fields : bool then None else Some (exec_fields fields)) slots = Err (EExec p) \/
   select_batch fo re_match B (exec_tree w) (if all_fields then None else Some (exec_fields fields)) slots = Err (EExec p) ->
   good_pos q p.
